@@ -477,17 +477,29 @@ func c10tRun(c c10tCase) (res c10tResult) {
 				time.Sleep(500 * time.Millisecond)
 			}
 		}
-		if !waitFull(45 * time.Second) {
-			res.viol = fmt.Sprintf("the peer is reachable again but the pool of %d did not return to full strength within 45 s: %d live session(s)", c.N, len(mgr.GetMuxConnections()))
+		// "full" must be seen to last: right after a kill the pool may still list sessions whose death it has not
+		// noticed yet (on a busy machine that takes a while), so a single full reading proves nothing, and a dip that
+		// follows it is the pool catching up, not a failure. Healed = N sessions for 500 ms without interruption.
+		healed := false
+		var since time.Time
+		for deadline := time.Now().Add(60 * time.Second); time.Now().Before(deadline); time.Sleep(20 * time.Millisecond) {
+			if len(mgr.GetMuxConnections()) != c.N {
+				since = time.Time{}
+				continue
+			}
+			if since.IsZero() {
+				since = time.Now()
+			} else if time.Since(since) >= 500*time.Millisecond {
+				healed = true
+				break
+			}
+		}
+		if !healed {
+			res.viol = fmt.Sprintf("the peer is reachable again but the pool of %d did not return to (and stay at) full strength within 60 s: %d live session(s)", c.N, len(mgr.GetMuxConnections()))
 			return
 		}
-		time.Sleep(150 * time.Millisecond)
 		if n := maxSeen.Load(); n > int64(c.N) {
 			res.viol = fmt.Sprintf("%d sessions were registered at the same time, the configured count is %d", n, c.N)
-			return
-		}
-		if n := len(mgr.GetMuxConnections()); n != c.N {
-			res.viol = fmt.Sprintf("the pool of %d holds %d sessions shortly after it was full with a healthy peer", c.N, n)
 			return
 		}
 	} else {
@@ -527,11 +539,14 @@ func c10tRun(c c10tCase) (res c10tResult) {
 		}
 		time.Sleep(50 * time.Millisecond)
 	}
-	if n := len(mgr.GetMuxConnections()); n != 0 {
-		// sessions de-register themselves asynchronously; give them a moment
-		time.Sleep(500 * time.Millisecond)
-		if n = len(mgr.GetMuxConnections()); n != 0 {
-			res.viol = fmt.Sprintf("after shutdown %d session(s) are still registered", n)
+	// sessions de-register themselves asynchronously; on a busy machine that can take a while
+	for deadline := time.Now().Add(10 * time.Second); ; time.Sleep(50 * time.Millisecond) {
+		n := len(mgr.GetMuxConnections())
+		if n == 0 {
+			break
+		}
+		if time.Now().After(deadline) {
+			res.viol = fmt.Sprintf("10 s after shutdown %d session(s) are still registered", n)
 			return
 		}
 	}
@@ -550,7 +565,7 @@ func c10tRun(c c10tCase) (res c10tResult) {
 	return res
 }
 
-const c10tRule = "tcp part: the pool as NewGRPCMuxManager assembles it (establisher.go / receiver.go providers, real yamux over loopback TCP - plain or TLS with CA verification -, real time), N=1-3; the harness is the peer: listener that serves, accepts-and-hangs-up or is down (establishing role), dialers holding N+extra connections, optionally behind one peer that connected first and never says a word (receiving role); histories of kill one / kill all / refuse / down / up / wait / vanish (a peer stops answering but leaves the connection open: thorough tier and one committed replay), then either healing + shutdown or shutdown in whatever state the history left (peer possibly unreachable); oracles: registered sessions never exceed N (sampled every 5 ms), the pool is full again within 45 s once the peer is reachable, after shutdown the manager finishes, no connection still answers, nothing is registered and the listener is gone; non-trivial = a session was killed or the peer was unreachable before healing was checked"
+const c10tRule = "tcp part: the pool as NewGRPCMuxManager assembles it (establisher.go / receiver.go providers, real yamux over loopback TCP - plain or TLS with CA verification -, real time), N=1-3; the harness is the peer: listener that serves, accepts-and-hangs-up or is down (establishing role), dialers holding N+extra connections, optionally behind one peer that connected first and never says a word (receiving role); histories of kill one / kill all / refuse / down / up / wait / vanish (a peer stops answering but leaves the connection open: thorough tier and one committed replay), then either healing + shutdown or shutdown in whatever state the history left (peer possibly unreachable); oracles: registered sessions never exceed N (sampled every 5 ms), the pool is full again (N sessions for 500 ms without interruption) within 60 s once the peer is reachable, after shutdown the manager finishes, no connection still answers, nothing is registered and the listener is gone; non-trivial = a session was killed or the peer was unreachable before healing was checked"
 
 func TestVF_C10_TCP(t *testing.T) {
 	const part = "tcp"
